@@ -221,10 +221,8 @@ class Rec:
         if self.extra:
             x = self.extra['project'](self)
             if x != self.prev_extra:
-                d['x'] = x
+                d['xs'] = x
                 self.prev_extra = x
-            else:
-                d['x'] = None
         return d
 
     def log(self, a, **kw):
@@ -443,6 +441,13 @@ def make_async_handler(rec, hdef, bus):
                         if len(rec.lines) >= op[1]:
                             break
                         await asyncio.sleep(0)
+                elif k == 'idle':  # wait_until_idle(timeout) on another bus from inside a handler (always with a timeout)
+                    rec.sleepers += 1
+                    try:
+                        await rec.buses[op[1]].wait_until_idle(timeout=op[2] / 1000.0)
+                    finally:
+                        rec.sleepers -= 1
+                    rec.log('HOp', act=act, op='idle')
                 elif k == 'rb':
                     _read_bus(rec, act, event)
                 elif k == 'raise':
@@ -505,7 +510,8 @@ async def driver(rec, i, ops, state):
             if not _do_dispatch(rec, ('D', i), rec.buses[op[1]], c):
                 state.setdefault('rejected', set()).add(id(c))
         elif k == 'rd':  # dispatch an existing root again (same object)
-            _do_dispatch(rec, ('D', i), rec.buses[op[1]], roots[op[2]])
+            if _do_dispatch(rec, ('D', i), rec.buses[op[1]], roots[op[2]]):
+                state.setdefault('rejected', set()).discard(id(roots[op[2]]))
         elif k == 'a':
             c = roots[op[1]]
             if id(c) in state.get('rejected', ()):
@@ -737,7 +743,7 @@ def execute(scn, probes=None):
     if abort is not None:
         rec.lines.append({'a': 'End', 't': rec.lines[-1]['t'] if rec.lines else 0, 'tk': 'X', 'blocked': [], 'open': sorted(rec.open),
                           'abort': abort, 'failed': [], 'running': [], 'rldone': [], 'crldone': [],
-                          'evs': [], 'hist': [], 'q': [], 'reg': [], 'x': None})
+                          'evs': [], 'hist': [], 'q': [], 'reg': []})
     for hd in scn['handlers']:
         hd.pop('_fn', None)
     return {'scn': scn, 'lines': rec.lines, 'abort': abort, 'probe_missing': rec.probe_missing}
